@@ -97,14 +97,28 @@ def realval(x):
     raise EngineError(f"not a number: {x!r}")
 
 
+def _kterm(k):
+    return z3.IntVal(k) if isinstance(k, int) else k
+
+
+def _both_int(k1, k2):
+    """z3 condition 'both operand kinds are int/bool' for symbolic kinds, or None"""
+    if k1 is None or k2 is None or (isinstance(k1, int) and isinstance(k2, int)):
+        return None
+    return z3.And(_kterm(k1) <= KINT, _kterm(k2) <= KINT)
+
+
 def _join_kind(k1, k2, op):
     """Python's result kind for a binary arithmetic operator."""
     if k1 is None or k2 is None:
         return None
-    if not isinstance(k1, int) or not isinstance(k2, int):
-        return None  # symbolic kinds: unknown result kind
     if op == "/":
         return KFLOAT
+    if not isinstance(k1, int) or not isinstance(k2, int):
+        if op == "**":
+            return None  # int ** negative int is a float: value-dependent, not modelled
+        # symbolic kinds: float if either operand is a float, else int (bool op bool is int)
+        return z3.simplify(z3.If(z3.Or(_kterm(k1) == KFLOAT, _kterm(k2) == KFLOAT), z3.IntVal(KFLOAT), z3.IntVal(KINT)))
     if k1 == KFLOAT or k2 == KFLOAT:
         return KFLOAT
     return KINT
@@ -467,6 +481,9 @@ class UAlg(_Alg):
         k = _join_kind(a.kind, b.kind, op)
         exact_int = (isinstance(a.kind, int) and isinstance(b.kind, int)
                      and a.kind <= KINT and b.kind <= KINT)
+        # symbolic operand kinds: the float operation stands for the int one as well (int and
+        # float arithmetic coincide on integers below 2^53 - stated assumption); only the
+        # result *kind* is tracked exactly
         if op == "+":
             if exact_int:
                 return SymNum(a.t + b.t, k)
@@ -637,9 +654,69 @@ TYPE_ALIASES[sym_float] = float
 def _ite_num(c, a, b):
     a = SymNum.lift(a)
     b = SymNum.lift(b)
-    k = a.kind if (isinstance(a.kind, int) and a.kind == b.kind) else (
-        KFLOAT if (a.kind == KFLOAT or b.kind == KFLOAT) else None)
+    if isinstance(a.kind, int) and isinstance(b.kind, int) and a.kind == b.kind:
+        k = a.kind
+    elif a.kind is None or b.kind is None:
+        k = None
+    else:
+        k = z3.If(c, _kterm(a.kind), _kterm(b.kind))
     return SymNum(z3.If(c, a.t, b.t), k)
+
+
+class MergeFail(Exception):
+    pass
+
+
+def per_path(obj):
+    """argument supplier for Ctx.merged: the object itself on the first path, a deep copy of
+    its pristine state on every further one (the same ids and names on every path)"""
+    import copy as _copy
+    pristine = _copy.deepcopy(obj)
+    return lambda i: obj if i == 0 else _copy.deepcopy(pristine)
+
+
+def merge_values(conds, vals):
+    """if-then-else merge of structurally equal values (the last is the else branch)"""
+    v0 = vals[0]
+    if all(v is None for v in vals):
+        return None
+    if all(isinstance(v, SymBool) or isinstance(v, bool) for v in vals) and any(isinstance(v, SymBool) for v in vals):
+        res = _b(vals[-1])
+        for c, v in reversed(list(zip(conds[:-1], vals[:-1]))):
+            res = z3.If(c, _b(v), res)
+        return SymBool(res)
+    if all(isinstance(v, (SymNum, SymBool, int, float, fractions.Fraction)) for v in vals):
+        if not any(isinstance(v, (SymNum, SymBool)) for v in vals):
+            if all(type(v) is type(v0) and v == v0 for v in vals):
+                return v0
+        res = SymNum.lift(vals[-1])
+        for c, v in reversed(list(zip(conds[:-1], vals[:-1]))):
+            res = _ite_num(c, v, res)
+        return res
+    if all(isinstance(v, (list, tuple)) for v in vals):
+        if any(type(v) is not type(v0) or len(v) != len(v0) for v in vals):
+            raise MergeFail("sequence shapes differ")
+        return type(v0)(merge_values(conds, [v[i] for v in vals]) for i in range(len(v0)))
+    if all(isinstance(v, dict) for v in vals):
+        if any(list(v.keys()) != list(v0.keys()) for v in vals):
+            raise MergeFail("dict keys differ")
+        return {key: merge_values(conds, [v[key] for v in vals]) for key in v0}
+    if all(isinstance(v, (str, bytes)) for v in vals):
+        if all(v == v0 for v in vals):
+            return v0
+        raise MergeFail("strings differ")
+    if all(v is v0 for v in vals):
+        return v0
+    if all(type(v) is type(v0) for v in vals) and hasattr(v0, "__dict__"):
+        import copy as _copy
+        cp = _copy.copy(v0)
+        for attr in vars(v0):
+            try:
+                setattr(cp, attr, merge_values(conds, [getattr(v, attr) for v in vals]))
+            except AttributeError as e:
+                raise MergeFail(str(e))
+        return cp
+    raise MergeFail(f"cannot merge values of type {type(v0).__name__}")
 
 
 def sym_max(*args, **kw):
@@ -775,6 +852,8 @@ class AnyObj:
         raise TypeError(f"object of type '{self.name}' has no len()")
 
     def __len__(self):
+        if "_items" in self.__dict__:
+            return len(self.__dict__["_items"])     # list(x)'s length hint, after x has been iterated
         raise EngineError("len() of AnyObj outside a rebound namespace")
 
     def __bool__(self):
@@ -785,8 +864,38 @@ class AnyObj:
                 z3.If(self._has_len(), self.length > 0, True)))
         return c.decide(truth)
 
+    ITER_BOUND = 4
+
     def __iter__(self):
-        raise EngineError("iteration over a symbolic container (needs a loop cut)")
+        """list(x) / tuple(x) / `for e in x` on an argument of symbolic dynamic type (only code
+        that iterates before validating gets here; the unchanged models never do).  Not
+        iterable -> TypeError, as in Python.  Otherwise the explorer enumerates the length up
+        to ITER_BOUND (longer containers are excluded by a recorded assumption) and each
+        element is a number of symbolic kind or a non-number object (strings yield strings)."""
+        c = cur()
+        if not c.decide(self._has_len()):
+            raise TypeError(f"'{self.name}' object is not iterable")
+        if "_items" not in self.__dict__:
+            c.assume(self.length <= self.ITER_BOUND)
+            c.events.append(("bounded-iteration", self.name, self.ITER_BOUND))
+            n = 0
+            while n < self.ITER_BOUND and not c.decide(self.length == n):
+                n += 1
+            items, descs = [], []
+            for q in range(n):
+                nm = f"{self.name}_{q}"
+                if not c.decide(self.tag == self.STR) and c.choose(f"{nm}_isnum", 2) == 0:
+                    items.append(c.number(nm))
+                    descs.append({"t": "num", "name": nm})
+                else:
+                    e = AnyObj(nm, c, own_cls=self.own_cls,
+                               allowed=[k for k in range(11) if k not in (self.BOOL, self.INT, self.FLOAT)])
+                    c.assume(z3.Implies(self.tag == self.STR, e.tag == self.STR))
+                    items.append(e)
+                    descs.append({"t": "obj", "name": nm})
+            self.__dict__["_items"] = items
+            c.iterated[self.name] = descs
+        return iter(list(self.__dict__["_items"]))
 
     def __getitem__(self, i):
         if self.elem is None:
@@ -897,6 +1006,7 @@ class Ctx:
         self.worklist = []
         self.npaths = 0
         self.all_obls = []
+        self.exploring = 0
         self.begin_path([])
 
     # ---- path management
@@ -910,6 +1020,7 @@ class Ctx:
         self.apps = {}
         self.obls = []
         self.events = []
+        self.iterated = {}          # AnyObj name -> descriptions of the elements an iteration produced
         self.fresh_n = 0
         self.solver = None          # full solver, built lazily
         self.light = z3.Solver()    # only "light" constraints (linear, no uninterpreted applications)
@@ -958,6 +1069,9 @@ class Ctx:
             t = self.feasible(e)
             f = self.feasible(z3.Not(e))
             if t and f:
+                if not self.exploring:
+                    # nobody would ever run the other side: refuse rather than cover half
+                    raise EngineError(f"fork outside an exploration on {str(e)[:120]}")
                 d = True
                 self.worklist.append(self.taken + [False])
             elif t:
@@ -971,6 +1085,73 @@ class Ctx:
         self.pc.append(c)
         self._add(c)
         return d
+
+    # ---- merged sub-exploration
+    def call_merged(self, fn, *a, **k):
+        """merged(...) of call(fn, *a, **k), for an fn that does not mutate its arguments
+        (predict_*); everything else goes through merged() with a thunk that builds
+        fresh arguments for every path."""
+        return self.merged(lambda _i: call(fn, *a, **k))
+
+    def merged(self, thunk, max_paths=64):
+        """thunk(path_index) -> call() outcome, run on every feasible path from the
+        current state; the outcomes are merged into one if-then-else outcome, so
+        that a caller written for a single-path function still covers a function
+        that forks (a guard, a clamp).  Returns ("return", v) / ("raise", e) when
+        all paths agree in kind, else ("split", [(condition, outcome), ...])."""
+        base_pc, base_taken, base_sched, base_work = list(self.pc), list(self.taken), self.schedule, self.worklist
+        base_all, base_asm = len(self._all), len(self.assumptions)
+        had_full = self.solver is not None
+        work = [[]]
+        results, cond_asm, npath = [], [], 0
+        self.exploring += 1
+        try:
+            while work:
+                sched = work.pop()
+                self.pc, self.taken, self.schedule, self.worklist = list(base_pc), [], list(sched), work
+                self.light.push()
+                if had_full:
+                    self.solver.push()
+                try:
+                    try:
+                        npath += 1
+                        out = thunk(npath - 1)
+                    except PathAbort:
+                        out = None
+                    conds = self.pc[len(base_pc):]
+                    cnd = z3.And(conds) if conds else z3.BoolVal(True)
+                    if out is not None:
+                        results.append((cnd, out))
+                    for x in self.assumptions[base_asm:]:
+                        cond_asm.append(z3.Implies(cnd, x) if conds else x)
+                finally:
+                    del self.assumptions[base_asm:]
+                    del self._all[base_all:]
+                    self.light.pop()
+                    if had_full:
+                        self.solver.pop()
+                    else:
+                        self.solver = None
+                if len(results) > max_paths:
+                    raise EngineError(f"more than {max_paths} paths in a merged call")
+        finally:
+            self.exploring -= 1
+            self.pc, self.taken, self.schedule, self.worklist = base_pc, base_taken, base_sched, base_work
+        for x in cond_asm:
+            self.assume(x)
+        if not results:
+            raise PathAbort("no feasible path through the merged call")
+        if len(results) == 1:
+            return results[0][1]
+        kinds = {o[0] for (_c, o) in results}
+        if kinds == {"return"}:
+            try:
+                return ("return", merge_values([c for (c, _o) in results], [o[1] for (_c, o) in results]))
+            except MergeFail:
+                pass
+        elif kinds == {"raise"} and len({type(o[1]) for (_c, o) in results}) == 1:
+            return results[0][1]
+        return ("split", results)
 
     def assume(self, e):
         """Add a hypothesis (precondition, stub postcondition)."""
@@ -1089,6 +1270,7 @@ def explore(ctx, run_once, max_paths=200000):
     set_cur(ctx)
     ctx.worklist = [[]]
     records = []
+    ctx.exploring += 1
     try:
         while ctx.worklist:
             sched = ctx.worklist.pop()
@@ -1109,5 +1291,6 @@ def explore(ctx, run_once, max_paths=200000):
             if ctx.npaths > max_paths:
                 raise EngineError(f"more than {max_paths} paths")
     finally:
+        ctx.exploring -= 1
         set_cur(None)
     return records
